@@ -297,7 +297,7 @@ CHECKS = {
  "C19": {
   "title": "Tags",
   "harnesses": [
-   {"pkg": "catalog", "fn": "VerifH_TagNameInverse", "quick": {"N": 4}, "thorough": {"N": 6}, "tabsets": ["urlescape"]},
+   {"pkg": "catalog", "fn": "VerifH_TagNameInverse", "quick": {"N": 4}, "thorough": {"N": 5}, "tabsets": ["urlescape"]},
    {"pkg": "catalog", "fn": "VerifH_PathTagTitle", "quick": {"N": 5}, "thorough": {"N": 8}},
    STRUCT, STRUCT_TAGS, STRUCT_PARENS,
   ],
